@@ -94,6 +94,8 @@ MUTANTS = [
             vm.peek(0)
         )
     })?;''', '''    let closure = vm.peek(0).try_as_obj_closure().expect("Expected a function.");''')]},
+    {'name': 'P2 receiver kind assumed again in one native', 'prop': 'C02', 'expect': 'P2 / yarel::core::tuple_len / peek(0).try_as_obj_tuple',
+     'edits': [(CORE, '    let tuple = receiver!(vm, 0, try_as_obj_tuple, "Tuple");\n    Ok(Value::Number(tuple.elements.len() as f64))', '    let tuple = vm.peek(0).try_as_obj_tuple().expect("Expected ObjTuple");\n    Ok(Value::Number(tuple.elements.len() as f64))')]},
     {'name': 'P3 vec borrowed mutably across string allocation', 'prop': 'C02', 'expect': 'P3 / yarel::core::string_split',
      'edits': [(CORE, '''    for substr in string.as_str().split(delim.as_str()) {
         let new_str = Value::ObjString(vm.new_gc_obj_string(substr));
